@@ -8,6 +8,25 @@ VERIF = os.path.dirname(os.path.dirname(os.path.abspath(__file__)))
 
 # property -> (technique, clause decided, trusted base / what is not decided, DESIGN ref)
 CLAIMS = {
+    "C08": ("exit-status abstract interpretation over the CFGs of the three tools (powerset-of-worlds domain, "
+            "interprocedural summaries) + sibling-agreement of counter atoms (AST)",
+            "every value that can reach the exit status of abidiff/abicompat/abipkgdiff uses only documented bits with "
+            "INCOMPATIBLE=>CHANGE and USAGE=>ERROR (lemmas L1/L1' read off the verdict predicates), and each reporter's "
+            "net-change predicate tests exactly the counters emit_diff_stats prints on its branch",
+            "that the counters themselves are computed correctly at run time; L1 for the leaf reporter's virtual-offset "
+            "disjunct is an assumption (sa/tables/atoms_exceptions.json)",
+            "§3 R-STATUS, R-ATOMS; §4 C08"),
+    "C09": ("exit-status abstract interpretation with null-edge predicates (tools) + must-pass-through dataflow (reader)",
+            "with a failed load (null corpus / group) abidiff and abicompat can only exit with the ERROR bit; "
+            "read_corpus_from_elf never pairs a null corpus with STATUS_OK; the ABIXML entry points return non-null "
+            "only after a null-checked full expansion of the root element",
+            "that libxml2 / elfutils fail on every corruption",
+            "§3 R-LOADFAIL, R-EXPAND; §4 C09"),
+    "C30": ("exit-status abstract interpretation of abipkgdiff (kill rule, field-wise accumulation, marker predicate)",
+            "no accumulated status bit is discarded in abipkgdiff: task results and removed-binary bits are OR-ed on "
+            "every path; paths that record a removed binary return CHANGE|INCOMPATIBLE",
+            "per-binary agreement with abidiff and the matching of binaries are runtime",
+            "§3 R-STATUS S5, R-ACCUM; §4 C30"),
     "C21": ("AST shape rule over all overriders of diff::has_changes (sibling agreement)",
             "every artifact diff's has_changes() is the negation of the IR deep-equality operator applied to the "
             "node's own first/second subjects; one deviant sibling (array_diff) is a recorded finding",
